@@ -41,6 +41,12 @@ deriving Repr
 def Mon.view (m : Mon) (id : Nat) : View := (aget m.views id).getD {}
 def Mon.set (m : Mon) (id : Nat) (v : View) : Mon := { m with views := aset m.views id v }
 
+/-- `t` does not lie above the floor (the previous checkpoint of the same scheduling). -/
+def notAbove (floor : Option Int) (t : Int) : Bool :=
+  match floor with
+  | some c => decide (t ≤ c)
+  | none => false
+
 /-- One observed event. `Except.error clause` = the property is violated, by that clause. -/
 def monStep (nx : Nat → Int → Option Int) (m : Mon) : Ev → Except String Mon
   | .sched id sc off last =>
@@ -75,7 +81,7 @@ def monStep (nx : Nat → Int → Option Int) (m : Mon) : Ev → Except String M
     match v.run with
     | some r =>
       if r.occ ≠ t ∨ r.finished = false then .error "checkpoint-is-the-finished-run"
-      else if (match r.floor with | some c => decide (t ≤ c) | none => false) then .error "checkpoint-moves-forward"
+      else if notAbove r.floor t then .error "checkpoint-moves-forward"
       else .ok (m.set id { v with run := none, ck := if r.cur then some t else v.ck })
     | none => .error "checkpoint-is-the-finished-run"
   | .onErr _ => .ok m
